@@ -116,6 +116,26 @@ class SOther:
     v: Optional[int] = field(default=None, metadata={"type": "Element"})
 
 
+@dataclass
+class H0:
+    a: str = field(metadata={"type": "Element"})
+
+
+@dataclass
+class H1(H0):
+    b: str = field(metadata={"type": "Element"})
+
+
+@dataclass
+class H2(H1):
+    c: str = field(metadata={"type": "Element"})
+
+
+@dataclass
+class H3(H2):
+    d: str = field(metadata={"type": "Element"})
+
+
 def _shape_model(name, hint, meta, default=None, factory=None, required=False):
     import dataclasses
 
@@ -143,6 +163,8 @@ SHAPE_MODELS = {
     "primUnion": _shape_model("KPrimUnion", Optional[Union[int, str]], {"type": "Element"}),
     "compound": _shape_model("KCompound", List[Union[int, SLeaf]], {"type": "Elements", "choices": ({"name": "n", "type": int}, {"name": "leaf", "type": SLeaf})}, factory=list),
     "enum": _shape_model("KEnum", Optional[SColor], {"type": "Element"}),
+    "hierarchy": _shape_model("KHierarchy", Optional[H0], {"type": "Element"}),
+    "hierarchyList": _shape_model("KHierarchyList", List[H0], {"type": "Element"}, factory=list),
 }
 
 SHAPE_VALUES = {
@@ -150,6 +172,8 @@ SHAPE_VALUES = {
     "listOfIntLists": [[5], [6, 7]], "listOfEmptyList": [[]], "emptyObj": {}, "leafObj": {"v": 1}, "unknownKeyObj": {"zz": 1},
     "listOfLeafObj": [{"v": 1}, {"v": 2}], "listOfEmptyObj": [{}], "listOfNull": [None], "anyElementObj": {"qname": "q", "text": "t", "tail": None, "children": [], "attributes": {}},
     "derivedObj": {"qname": "q", "value": 5, "type": None}, "strDict": {"a": "1", "b": "2"}, "nestedList3": [[[1]]],
+    "h0Obj": {"a": "p"}, "h1Obj": {"a": "p", "b": "q"}, "h2Obj": {"a": "p", "b": "q", "c": "r"}, "h3Obj": {"a": "p", "b": "q", "c": "r", "d": "s"},
+    "listOfHObjs": [{"a": "p", "b": "q", "c": "r"}, {"a": "p"}, {"a": "p", "b": "q", "c": "r", "d": "s"}, {"a": "p", "b": "q"}],
 }
 
 
